@@ -92,27 +92,54 @@ type Case struct {
 	ContentType string `json:"content_type,omitempty"`
 	Cuts        []int  `json:"cuts,omitempty"`
 	StreamLen   int    `json:"stream_len,omitempty"`
+	// value of the grpc-encoding header when it is not the encoding's own name: "-" = header absent
+	EncodingHeader string `json:"grpc_encoding_header,omitempty"`
+	// chunk indexes (0..number of chunks) before which an empty DATA frame without END_STREAM is inserted
+	EmptyBefore []int `json:"empty_data_frame_before_chunk,omitempty"`
+	// duplex: History holds the client->server and the server->client half of ONE stream
+	Duplex bool `json:"duplex,omitempty"`
+	// wire family: the case runs through the real h2.Config.Proxy (see wire.go)
+	Wire *wireParams `json:"wire,omitempty"`
 	// multi-stream histories: the streams created, in order, on ONE factory and the order of their calls
 	History []Case `json:"history,omitempty"`
 	Order   []int  `json:"call_order,omitempty"`
 }
 
 type config struct {
-	msgs []msgSpec
-	enc  int
-	pl   int
-	dir  int
-	ct   string
+	msgs   []msgSpec
+	enc    int
+	pl     int
+	dir    int
+	ct     string
+	encHdr string // "" = the encoding's own name; "-" = no grpc-encoding header; "<empty>" = empty value; else the literal value
+}
+
+func (c config) encHeader() (string, bool) {
+	switch c.encHdr {
+	case "":
+		return encNames[c.enc], true
+	case "-":
+		return "", false
+	case "<empty>":
+		return "", true
+	}
+	return c.encHdr, true
 }
 
 // isGRPC follows the content-type grammar of the gRPC-over-HTTP/2 specification the package cites:
 // "application/grpc" [("+proto" / "+json" / {custom})]. "application/grpc-web..." is a different protocol.
+func (it *item) caseOf(cuts []int) Case {
+	cs := it.cfg.toCase(cuts, len(it.b.stream))
+	cs.EmptyBefore = append([]int{}, it.empties...)
+	return cs
+}
+
 func (c config) isGRPC() bool {
 	return c.ct == "application/grpc" || strings.HasPrefix(c.ct, "application/grpc+") || strings.HasPrefix(c.ct, "application/grpc;")
 }
 
 func (c config) toCase(cuts []int, L int) Case {
-	cs := Case{Encoding: encNames[c.enc], EndStream: plNames[c.pl], Direction: dirNames[c.dir], ContentType: c.ct, Cuts: append([]int{}, cuts...), StreamLen: L, Sizes: []int{}, Compressed: []bool{}}
+	cs := Case{Encoding: encNames[c.enc], EncodingHeader: c.encHdr, EndStream: plNames[c.pl], Direction: dirNames[c.dir], ContentType: c.ct, Cuts: append([]int{}, cuts...), StreamLen: L, Sizes: []int{}, Compressed: []bool{}}
 	for _, m := range c.msgs {
 		cs.Sizes = append(cs.Sizes, m.Size)
 		cs.Compressed = append(cs.Compressed, m.Compressed)
@@ -136,7 +163,7 @@ func caseToConfig(cs Case) (config, error) {
 		}
 		return -1
 	}
-	c.enc, c.pl, c.dir, c.ct = find(encNames, cs.Encoding), find(plNames, cs.EndStream), find(dirNames, cs.Direction), cs.ContentType
+	c.enc, c.pl, c.dir, c.ct, c.encHdr = find(encNames, cs.Encoding), find(plNames, cs.EndStream), find(dirNames, cs.Direction), cs.ContentType, cs.EncodingHeader
 	if c.enc < 0 || c.pl < 0 || c.dir < 0 {
 		return c, fmt.Errorf("bad encoding/end_stream_on/direction in replay")
 	}
@@ -326,6 +353,7 @@ type procCall struct {
 
 // procRec is the recording pass-through grpc.Processor.
 type procRec struct {
+	mu     sync.Mutex // the wire family calls from the relay's goroutines
 	dest   mgrpc.Processor
 	expect [][]byte
 	nmsg   int
@@ -333,11 +361,14 @@ type procRec struct {
 }
 
 func (p *procRec) Header(h []hpack.HeaderField, end bool, prio http2.PriorityParam) error {
+	p.mu.Lock()
 	p.calls = append(p.calls, procCall{kind: 'H', end: end, hdr: append([]hpack.HeaderField{}, h...)})
+	p.mu.Unlock()
 	return p.dest.Header(h, end, prio)
 }
 
 func (p *procRec) Message(data []byte, end bool) error {
+	p.mu.Lock()
 	c := procCall{kind: 'M', end: end, isNil: data == nil, n: len(data)}
 	marker := data == nil && end && p.nmsg >= len(p.expect)
 	if !marker {
@@ -347,6 +378,7 @@ func (p *procRec) Message(data []byte, end bool) error {
 		p.nmsg++
 	}
 	p.calls = append(p.calls, c)
+	p.mu.Unlock()
 	return p.dest.Message(data, end)
 }
 
@@ -373,6 +405,8 @@ type item struct {
 	pre      []hpack.HeaderField // request headers sent first when the direction under test is server->client
 	trailers []hpack.HeaderField
 	verdicts []*sinkVerdict
+	empties  []int // chunk indexes before which an empty, non-final DATA frame is inserted (see source)
+	bypass   bool  // wire family: the direction under test has no gRPC processor, the stream must pass untouched
 
 	evals, calls, nontrivial, prefixSplit, payloadSplit, multiMsgFrame, violating int64
 	viol                                                                          map[string]*vbest
@@ -383,20 +417,32 @@ var theURL, _ = url.Parse("https://example.com/svc.Test/Method")
 
 func newItem(cfg config) *item {
 	it := &item{cfg: cfg, b: build(cfg.msgs, cfg.enc), viol: map[string]*vbest{}}
-	req := func(ct, enc string) []hpack.HeaderField {
-		return []hpack.HeaderField{{Name: ":method", Value: "POST"}, {Name: ":scheme", Value: "https"}, {Name: ":path", Value: "/svc.Test/Method"},
-			{Name: ":authority", Value: "example.com"}, {Name: "content-type", Value: ct}, {Name: "grpc-encoding", Value: enc}, {Name: "te", Value: "trailers"}}
+	req := func(ct, enc string, withEnc bool) []hpack.HeaderField {
+		h := []hpack.HeaderField{{Name: ":method", Value: "POST"}, {Name: ":scheme", Value: "https"}, {Name: ":path", Value: "/svc.Test/Method"},
+			{Name: ":authority", Value: "example.com"}, {Name: "content-type", Value: ct}}
+		if withEnc {
+			h = append(h, hpack.HeaderField{Name: "grpc-encoding", Value: enc})
+		}
+		return append(h, hpack.HeaderField{Name: "te", Value: "trailers"})
 	}
+	encVal, withEnc := cfg.encHeader()
 	if cfg.dir == dirC2S {
-		it.hdr0 = req(cfg.ct, encNames[cfg.enc])
+		it.hdr0 = req(cfg.ct, encVal, withEnc)
 	} else {
 		// the request direction announces a *different* encoding: the two directions keep separate state
 		other := "gzip"
 		if cfg.enc == encGzip {
 			other = "deflate"
 		}
-		it.pre = req(cfg.ct, other)
-		it.hdr0 = []hpack.HeaderField{{Name: ":status", Value: "200"}, {Name: "content-type", Value: cfg.ct}, {Name: "grpc-encoding", Value: encNames[cfg.enc]}}
+		it.pre = req(cfg.ct, other, true)
+		it.hdr0 = []hpack.HeaderField{{Name: ":status", Value: "200"}, {Name: "content-type", Value: cfg.ct}}
+		if withEnc {
+			it.hdr0 = append(it.hdr0, hpack.HeaderField{Name: "grpc-encoding", Value: encVal})
+		}
+		if cfg.pl == plHeadersOnly {
+			// a Trailers-Only response: the status travels in the only HEADERS frame, which ends the stream
+			it.hdr0 = append(it.hdr0, hpack.HeaderField{Name: "grpc-status", Value: "12"}, hpack.HeaderField{Name: "grpc-message", Value: "unimplemented"})
+		}
 	}
 	it.trailers = []hpack.HeaderField{{Name: "grpc-status", Value: "0"}, {Name: "grpc-message", Value: ""}}
 	return it
@@ -412,10 +458,18 @@ type srcEvent struct {
 func (it *item) source(cuts []int) []srcEvent {
 	cfg, b := it.cfg, it.b
 	ev := []srcEvent{{isHdr: true, hdr: it.hdr0, end: cfg.pl == plHeadersOnly}}
+	var chunks [][]byte
 	if len(b.stream) > 0 {
-		chunks := lib.Split(b.stream, cuts)
-		for i, c := range chunks {
-			ev = append(ev, srcEvent{data: c, end: cfg.pl == plLast && i == len(chunks)-1})
+		chunks = lib.Split(b.stream, cuts)
+	}
+	for i := 0; i <= len(chunks); i++ {
+		for _, e := range it.empties {
+			if e == i && cfg.pl != plHeadersOnly && !(cfg.pl == plLast && i == len(chunks)) {
+				ev = append(ev, srcEvent{data: []byte{}}) // an empty DATA frame that does not end the stream
+			}
+		}
+		if i < len(chunks) {
+			ev = append(ev, srcEvent{data: chunks[i], end: cfg.pl == plLast && i == len(chunks)-1})
 		}
 	}
 	switch cfg.pl {
@@ -441,6 +495,9 @@ func hdrEq(a, b []hpack.HeaderField) bool {
 
 func errClass(err error) string {
 	s := err.Error()
+	if strings.HasPrefix(s, "unrecognized grpc-encoding") {
+		return "unrecognized_grpc_encoding"
+	}
 	if i := strings.Index(s, ":"); i > 0 {
 		s = s[:i]
 	}
@@ -484,7 +541,31 @@ type streamRun struct {
 	kinds        []string
 	next         int
 	dead         bool // setup failed, or a call failed: the relay would have torn the connection down
+	duplex       bool // the opposite direction of the same stream carries its own gRPC traffic (judged by its own run)
 	syms         []symptom
+}
+
+// startDuplex plans the server->client half of a stream whose client->server half is req: same processors,
+// same sinks; the request headers are req's first call, so no separate request is made.
+func (it *item) startDuplex(req *streamRun, cuts []int) *streamRun {
+	r := &streamRun{it: it, sinkC: req.sinkC, sinkS: req.sinkS, procC: req.procC, procS: req.procS, c2s: req.c2s, s2c: req.s2c, duplex: true, dead: req.dead}
+	req.duplex = true
+	if r.dead {
+		return r
+	}
+	r.procS.expect = it.b.plain
+	r.src = it.source(cuts)
+	for _, e := range r.src {
+		e := e
+		if e.isHdr {
+			r.steps = append(r.steps, func() error { return r.s2c.Header(e.hdr, e.end, prio) })
+			r.kinds = append(r.kinds, "header")
+		} else {
+			r.steps = append(r.steps, func() error { return r.s2c.Data(e.data, e.end) })
+			r.kinds = append(r.kinds, "data")
+		}
+	}
+	return r
 }
 
 // start creates the stream's processors (what the relay does on the stream's first frame) and plans its calls.
@@ -583,11 +664,13 @@ func (r *streamRun) finish() []symptom {
 	if cfg.dir == dirS2C {
 		wantOther = 1
 	}
-	if len(otherSink.ev) != wantOther || (wantOther == 1 && !(otherSink.ev[0].kind == 'H' && hdrEq(otherSink.ev[0].hdr, it.pre) && !otherSink.ev[0].end)) {
+	if r.duplex {
+		wantOther = -1 // judged by the other half's own run
+	} else if len(otherSink.ev) != wantOther || (wantOther == 1 && !(otherSink.ev[0].kind == 'H' && hdrEq(otherSink.ev[0].hdr, it.pre) && !otherSink.ev[0].end)) {
 		syms = append(syms, symptom{"cross_direction:sink_events", fmt.Sprintf("the opposite direction's sink saw %d events, want %d", len(otherSink.ev), wantOther)})
 	}
 
-	if !cfg.isGRPC() {
+	if !cfg.isGRPC() || it.bypass {
 		// oracle (c)
 		if d := diffPassThrough(src, sink.ev); d != "" {
 			syms = append(syms, symptom{"nongrpc:sink_differs_from_source", d})
@@ -598,7 +681,7 @@ func (r *streamRun) finish() []symptom {
 		return append(syms, symptom{"detect:content_type_with_subtype:stream_not_processed",
 			fmt.Sprintf("content-type %q is a gRPC content-type (application/grpc[+subtype]) but the stream was relayed as non-gRPC: the processor saw no header and none of the %d messages", cfg.ct, len(b.plain))})
 	}
-	if len(otherProc.calls) != wantOther {
+	if wantOther >= 0 && len(otherProc.calls) != wantOther {
 		syms = append(syms, symptom{"cross_direction:processor_calls", fmt.Sprintf("the opposite direction's processor saw %d calls, want %d", len(otherProc.calls), wantOther)})
 	}
 	syms = append(syms, it.checkProcessor(proc)...)
@@ -925,6 +1008,10 @@ func (it *item) classify(cuts []int) {
 	}
 }
 
+// baseOnly (C11_ONLY_BASE=1, development aid) runs the check as it was before the audit's families were added:
+// used to show that a mutant is caught only because of a new family.
+var baseOnly = os.Getenv("C11_ONLY_BASE") != ""
+
 var countOnly = os.Getenv("C11_COUNT") != "" // development aid: enumerate the space without executing it
 
 func (it *item) one(cuts []int) {
@@ -935,6 +1022,11 @@ func (it *item) one(cuts []int) {
 	syms := it.eval(cuts)
 	it.evals++
 	it.classify(cuts)
+	it.record(cuts, syms)
+}
+
+// record files the symptoms of one case under their signatures, keeping the simplest case of each.
+func (it *item) record(cuts []int, syms []symptom) {
 	if len(syms) == 0 {
 		return
 	}
@@ -944,7 +1036,7 @@ func (it *item) one(cuts []int) {
 	for _, c := range cuts {
 		sum += c
 	}
-	key := []int{len(it.cfg.msgs), L, len(cuts), sum, it.cfg.enc, it.cfg.pl, it.cfg.dir}
+	key := []int{len(it.cfg.msgs), L, len(cuts) + len(it.empties), sum, it.cfg.enc, it.cfg.pl, it.cfg.dir}
 	seen := map[string]bool{}
 	for _, s := range syms {
 		if seen[s.sig] {
@@ -962,7 +1054,7 @@ func (it *item) one(cuts []int) {
 			k = append([]int{99}, key[1:]...) // a case with a message illustrates a detection failure better
 		}
 		if v.key == nil || less(k, v.key) {
-			v.key, v.desc, v.cs = k, s.desc, it.cfg.toCase(cuts, L)
+			v.key, v.desc, v.cs = k, s.desc, it.caseOf(cuts)
 		}
 	}
 }
@@ -985,25 +1077,45 @@ func (it *item) run(maxExhaustive, maxMsgs int, deadline time.Time, timedOut *in
 	case L <= maxExhaustive:
 		lib.Cuts(L, -1, func(c []int) { it.one(c) })
 	default:
-		radius := 2
-		if len(it.cfg.msgs) >= maxMsgs {
-			radius = 1 // the longest sequences of the tier: a narrower neighbourhood
+		// cut plans (position neighbourhood, cut budget); later plans skip what an earlier one already ran
+		type plan struct{ radius, maxCuts int }
+		plans := []plan{{2, 3}}
+		switch {
+		case len(it.cfg.msgs) >= maxMsgs:
+			plans = []plan{{1, 2}} // the longest sequences of the tier
+		case len(it.cfg.msgs) == 2:
+			plans = []plan{{1, 3}, {2, 2}} // two messages (thorough): 3 cuts next to the boundaries, 2 cuts in the wider neighbourhood
 		}
-		pos := it.b.positions(radius)
-		buf := make([]int, 0, 3)
+		var first map[int]bool
 		n := 0
-		lib.Cuts(len(pos)+1, maxCutsLong(len(it.cfg.msgs), maxMsgs), func(idx []int) {
-			n++
-			if n&255 == 0 && (atomic.LoadInt32(timedOut) != 0 || time.Now().After(deadline)) {
-				atomic.StoreInt32(timedOut, 1)
-				return
+		for pi, pl := range plans {
+			pos := it.b.positions(pl.radius)
+			buf := make([]int, 0, 3)
+			lib.Cuts(len(pos)+1, pl.maxCuts, func(idx []int) {
+				n++
+				if n&255 == 0 && (atomic.LoadInt32(timedOut) != 0 || time.Now().After(deadline)) {
+					atomic.StoreInt32(timedOut, 1)
+					return
+				}
+				buf = buf[:0]
+				dup := pi > 0 && len(idx) <= plans[0].maxCuts
+				for _, i := range idx {
+					buf = append(buf, pos[i-1])
+					if dup && !first[pos[i-1]] {
+						dup = false
+					}
+				}
+				if !dup {
+					it.one(buf)
+				}
+			})
+			if pi == 0 {
+				first = map[int]bool{}
+				for _, p := range pos {
+					first[p] = true
+				}
 			}
-			buf = buf[:0]
-			for _, i := range idx {
-				buf = append(buf, pos[i-1])
-			}
-			it.one(buf)
-		})
+		}
 		// the framing an HTTP/2 peer with the default max frame size would produce
 		if L > 4*16384 {
 			var all []int
@@ -1044,8 +1156,8 @@ func configs(maxMsgs int, bigOnlyAlone bool) []config {
 		}
 		if len(msgs) > 2 {
 			for _, m := range msgs {
-				if m.Size == 16379 {
-					return // thorough: the frame-filling message in sequences of at most two
+				if m.Size == 16379 || m.Size == 70000 {
+					return // thorough: sequences of three messages draw from {0, 1, 5, 300} (time budget)
 				}
 			}
 		}
@@ -1062,6 +1174,10 @@ func configs(maxMsgs int, bigOnlyAlone bool) []config {
 					}
 					for _, ct := range cts {
 						out = append(out, config{msgs: msgs, enc: enc, pl: pl, dir: dir, ct: ct})
+					}
+					if enc == encIdentity && len(msgs) <= 1 && !baseOnly {
+						// identity announced by the absence of a grpc-encoding header
+						out = append(out, config{msgs: msgs, enc: enc, pl: pl, dir: dir, ct: "application/grpc", encHdr: "-"})
 					}
 				}
 			}
@@ -1314,6 +1430,20 @@ func evalHistoryCase(cs Case) ([]symptom, error) {
 	return out, nil
 }
 
+func mergeViol(into, from map[string]*vbest) {
+	for sig, v := range from {
+		g := into[sig]
+		if g == nil {
+			g = &vbest{}
+			into[sig] = g
+		}
+		g.count += v.count
+		if g.key == nil || less(v.key, g.key) {
+			g.key, g.desc, g.cs = v.key, v.desc, v.cs
+		}
+	}
+}
+
 func main() {
 	tier := lib.Tier()
 	maxMsgs, maxEx := 2, 12
@@ -1328,6 +1458,10 @@ func main() {
 		debug.SetGCPercent(200)
 	}
 	debug.SetMemoryLimit(4 << 30)
+	if spec := os.Getenv("C11_WIRE_SHARD"); spec != "" {
+		wireShardMain(spec, tier == "thorough")
+		return
+	}
 	if os.Getenv("C11_BENCH") != "" {
 		bench(maxEx)
 		return
@@ -1389,17 +1523,7 @@ func main() {
 		if order[k]%997 == 0 {
 			rep.Sample(8, map[string]interface{}{"config": it.cfg.toCase(nil, len(it.b.stream)), "cut_sets_evaluated": it.evals})
 		}
-		for sig, v := range it.viol {
-			g := viol[sig]
-			if g == nil {
-				g = &vbest{}
-				viol[sig] = g
-			}
-			g.count += v.count
-			if g.key == nil || less(v.key, g.key) {
-				g.key, g.desc, g.cs = v.key, v.desc, v.cs
-			}
-		}
+		mergeViol(viol, it.viol)
 	})
 	// multi-stream histories on one factory
 	alpha := historyAlphabet(tier == "thorough")
@@ -1422,18 +1546,13 @@ func main() {
 		if k%97 == 0 && len(tasks[k].types) == 2 {
 			rep.Sample(12, map[string]interface{}{"multi_stream_history": []Case{alpha[tasks[k].types[0]].cfg.toCase(alpha[tasks[k].types[0]].cuts, 0), alpha[tasks[k].types[1]].cfg.toCase(alpha[tasks[k].types[1]].cuts, 0)}, "interleavings_evaluated": res.histories})
 		}
-		for sig, v := range res.viol {
-			g := viol[sig]
-			if g == nil {
-				g = &vbest{}
-				viol[sig] = g
-			}
-			g.count += v.count
-			if g.key == nil || less(v.key, g.key) {
-				g.key, g.desc, g.cs = v.key, v.desc, v.cs
-			}
-		}
+		mergeViol(viol, res.viol)
 	})
+	// families added by the audit (families.go, wire.go)
+	famNotes := ""
+	if !baseOnly {
+		famNotes = runAuditFamilies(rep, tier == "thorough", deadline, &timedOut, &mu, viol)
+	}
 	if timedOut != 0 {
 		rep.Incomplete = "internal deadline reached before all cut sets were evaluated"
 	}
@@ -1449,7 +1568,7 @@ func main() {
 		b, _ := json.Marshal(v.cs)
 		rep.Violate(s, fmt.Sprintf("%s [%d failing cases; simplest: %s]", v.desc, v.count, b), v.cs)
 	}
-	bigNote := ""
+	bigNote := " (thorough: sequences of three messages draw their sizes from {0, 1, 5, 300})"
 	if tier != "thorough" {
 		bigNote = " (quick: the 16379- and 70000-byte messages only in single-message sequences)"
 	}
@@ -1459,13 +1578,13 @@ func main() {
 	rep.Coverage["streams_with_le3_cuts_over_boundary_positions"] = boundedStreams
 	rep.Coverage["exhaustive"] = rep.Incomplete == ""
 	rep.Coverage["rule"] = "cases = every (message sequence, per-message compressed flag, grpc-encoding, END_STREAM placement, direction, content-type, cut set) " +
-		"plus every multi-stream history (ordered pair of stream types on one factory x every interleaving of their calls; ordered triples one after the other); " +
+		"plus every multi-stream history (ordered pair of stream types on one factory x every interleaving of their calls; ordered triples one after the other), every duplex pair x interleaving, every emptyframes/enchdr case and every wire case (a real proxy session); " +
 		"states = distinct stream configurations executed, transitions = Header/Data calls made on the real adapter; a case is non-trivial when the stream is gRPC, " +
 		"has at least one message and at least one DATA frame boundary falls strictly inside a message frame (inside its 5-byte prefix or inside its payload), i.e. reassembly across frames is required"
 	rep.Coverage["bounds"] = fmt.Sprintf("message sequences of length 0..%d over sizes %v x compressed flag per message; encodings %v; END_STREAM on %v (zero-message streams: %v); both directions; content-type application/grpc and application/json (sequences of <=1 message also application/grpc+proto, a gRPC content-type, and application/grpc-web, not one); "+
-		"all 2^(L-1) cut sets for streams of L<=%d bytes, for longer streams all cut sets with <=3 cuts over the position set {prefix start, prefix end, message end}+-2 and all multiples of 16384 (sequences of %d messages: <=2 cuts and +-1), plus the cut set of all multiples of 16384%s; "+
+		"all 2^(L-1) cut sets for streams of L<=%d bytes, for longer streams all cut sets with <=3 cuts over the position set {prefix start, prefix end, message end}+-2 and all multiples of 16384 (thorough, sequences of 2 messages: <=3 cuts over +-1 and <=2 cuts over +-2; sequences of %d messages: <=2 cuts and +-1), plus the cut set of all multiples of 16384%s; "+
 		"multi-stream histories on one factory: %d stream types (content-type grpc/json x %d bodies x %d END_STREAM placements x 2 directions, fixed fragmentation {2, L-1}): all %d ordered pairs x all interleavings of their calls, all %d ordered triples run one after the other",
-		maxMsgs, sizes, encNames, plNames[:3], []string{plNames[plSeparate], plNames[plHeadersOnly], plNames[plTrailers]}, maxEx, maxMsgs, bigNote, len(alpha), len(alpha)/(4*len(histPls(tier))), len(histPls(tier)), len(alpha)*len(alpha), len(alpha)*len(alpha)*len(alpha))
+		maxMsgs, sizes, encNames, plNames[:3], []string{plNames[plSeparate], plNames[plHeadersOnly], plNames[plTrailers]}, maxEx, maxMsgs, bigNote, len(alpha), len(alpha)/(4*len(histPls(tier))), len(histPls(tier)), len(alpha)*len(alpha), len(alpha)*len(alpha)*len(alpha)) + famNotes
 	rep.Assumptions = []string{
 		"the adapter is driven directly through the h2.Processor interface exactly as relay.processFrame does (one Header/Data call per frame, one goroutine per direction); HTTP/2 framing, flow control and hpack are out of scope (other properties)",
 		"deflate means raw DEFLATE (compress/flate), the repository's own convention; snappy sources use the framing (stream) format, the only one the adapter can decode",
@@ -1473,6 +1592,8 @@ func main() {
 		"source payloads are produced with compression level BestSpeed so that the destination's bytes legitimately differ from the source's; equality is judged on decoded messages, flags and container",
 		"the 70 000-byte messages are compressible (about 1.6 KB on the wire when compressed): a stream is long on the wire only through its uncompressed messages, long after decompression through its compressed ones",
 		"multi-stream histories are executed by one goroutine (calls of different streams interleaved, never concurrent); data races between streams are not in scope here",
+		"wire family: real h2.Config.Proxy sessions over net.Pipe (client side) and TLS on 127.0.0.1 (server side) with raw x/net framers as endpoints; senders keep every DATA frame <= 16384 bytes and honour the windows the proxy grants; completion is detected by observing END_STREAM at the destination and a sentinel stream sent behind the traffic, a 20 s deadline only bounds the wait for a delivery that never happens; receiver windows smaller than a frame and receiver-side SETTINGS changes mid-stream belong to C09 and are not enumerated",
+		"a gRPC stream announcing a grpc-encoding outside the statement's four is judged for panics only (the adapter rejects the header block, which ends the connection); recorded in coverage as enchdr_*",
 		"DATA frames larger than the default max frame size are fed to the processor when a cut set leaves them whole (the Processor API does not bound them)",
 	}
 	rep.Finish()
@@ -1496,7 +1617,19 @@ func replay(path string, maxEx int) {
 		os.Exit(2)
 	}
 	var syms []symptom
-	if len(rp.First.Replay.History) > 0 {
+	if rp.First.Replay.Wire != nil {
+		syms, err = evalWireCase(rp.First.Replay)
+		if err != nil {
+			fmt.Println(err)
+			os.Exit(2)
+		}
+	} else if rp.First.Replay.Duplex {
+		syms, err = evalDuplexCase(rp.First.Replay)
+		if err != nil {
+			fmt.Println(err)
+			os.Exit(2)
+		}
+	} else if len(rp.First.Replay.History) > 0 {
 		syms, err = evalHistoryCase(rp.First.Replay)
 		if err != nil {
 			fmt.Println(err)
@@ -1508,7 +1641,9 @@ func replay(path string, maxEx int) {
 			fmt.Println(err)
 			os.Exit(2)
 		}
-		syms = newItem(cfg).eval(rp.First.Replay.Cuts)
+		it := newItem(cfg)
+		it.empties = rp.First.Replay.EmptyBefore
+		syms = it.eval(rp.First.Replay.Cuts)
 	}
 	fmt.Printf("replay of %s: case %+v\n", rp.Sig, rp.First.Replay)
 	hit := false
